@@ -61,6 +61,16 @@ CHUNKS = {
     "dup_cls": "class P:\n    def f(self):\n        return 1\n\n\nclass Q:\n    def f(self):\n        return 1\n",
     "prop": "class R:\n    @property\n    def val(self):\n        return 7000\n",
     "async": "async def fetch(a):\n    return a\n",
+    "async_camel": "async def fetchData(a):\n    return a\n\n\nasync def useIt():\n    return await fetchData(7000)\n",
+    "async_method": "class Client:\n    async def getItem(self, k):\n        return k\n\n    async def loadAll(self):\n        return await self.getItem(7000)\n",
+    "camel_cls": "class myHandler:\n    def handleIt(self):\n        return 7000\n\n\nhandlerInstance = myHandler()\n",
+    "dunder_var": "__version__ = '1.0'\n__all__ = ['x']\nx = 7000\n",
+    "upper_fn": "def DoWork(a):\n    return a\n\n\nWORK = DoWork(7000)\n",
+    "lambda_camel": "makeDouble = lambda v: v * 2\n",
+    "global_in_fn": "totalCount = 0\n\n\ndef bumpIt():\n    global totalCount\n    totalCount += 7000\n",
+    "nested_cls": "class Outer:\n    class innerThing:\n        valueX = 7000\n\n    def makeIt(self):\n        return self.innerThing()\n",
+    "overload": "def handler(a):\n    return a\n\n\ndef handler(a, b=7000):\n    return a + b\n",
+    "decorated": "import functools\n\n\n@functools.lru_cache(maxsize=None)\ndef cachedValue(a):\n    return a + 7000\n",
     "del_redefine": "tmp = 7000\ndel tmp\ntmp = 7001\n",
     "const_repeat": "A1 = 'some repeated text'\nA2 = 'some repeated text'\nA3 = 'some repeated text'\nA4 = 'some repeated text'\nA5 = 'some repeated text'\n",
 }
